@@ -12,14 +12,16 @@ Extracted into tables the model is driven by:
     self-recursion through eval_filter_expr);
   * eval_builtin_function: the `"name" [if args.len() ..] =>` arm list (names and arity guards) and
     how `abs` treats an Int (raw `n.abs()` / checked / wrapping).
+  * BinOp::{Eq,NotEq}: plain `Value` equality (`left_val == right_val`) or the helper `values_eq`
+    (an Int and a Float are equal when they denote the same number);
   * BinOp::{Lt,Le,Gt,Ge}: the `(Value::X(a), Value::Y(b)) => Some(Value::Bool(<how>))` arms (direct
     comparison, int cast to f64 on one side, or the exact helper cmp_int_float) -- the same arms
     translate/eval_arms.py extracts for C08; repeated here so that the Expr model does not depend
     on another area's generated file;
 Compared by digest with the committed shape file translate/expr_shape.json (fail closed):
   * every other arm of eval_expr_with_functions (Ident, literals, Array, Map, Index, Slice, Range,
-    Coalesce, Member, Call, If), the remaining operators of the Binary block (Eq NotEq In NotIn And
-    Or Xor), UnaryOp::Not, cmp_int_float (when an arm uses it), and every built-in's body except `abs`: these are modelled by hand in Expr/Model.v, so any edit
+    Coalesce, Member, Call, If), the remaining operators of the Binary block (In NotIn And Or Xor),
+    UnaryOp::Not, cmp_int_float and values_eq (when used), and every built-in's body except `abs`: these are modelled by hand in Expr/Model.v, so any edit
     to them must be followed by a model update (`expr_arms.py --update-shape`).
 Anything unexpected => exit status 1 => the check reports a broken tie.
 """
@@ -176,7 +178,7 @@ def main():
     inner, _ = block_after(body, r"match\s+expr\s*\{")
     arms = split_arms(inner)
     names = []
-    arith, neg_arms, ord_arms, used = [], [], [], []
+    arith, neg_arms, ord_arms, used, eq_numeric = [], [], [], [], []
     ts_handled = False
     fallthrough = None
     for pat, b in arms:
@@ -224,6 +226,14 @@ def main():
                     arith += parse_arith(o, ob)
                 elif o in ORDERING:
                     ord_arms += parse_ordering(o, ob, used)
+                elif o in ("Eq", "NotEq"):
+                    forms = {"Eq": {"Some(Value::Bool(left_val==right_val))": "false",
+                                    "Some(Value::Bool(values_eq(&left_val,&right_val)))": "true"},
+                             "NotEq": {"Some(Value::Bool(left_val!=right_val))": "false",
+                                       "Some(Value::Bool(!values_eq(&left_val,&right_val)))": "true"}}[o]
+                    if norm(ob) not in forms:
+                        raise Shape("BinOp::%s: unrecognised body %s" % (o, norm(ob)))
+                    eq_numeric.append(forms[norm(ob)])
                 else:
                     shape["binop:" + o] = digest(ob)
             shape["binop-order"] = ",".join(seen)
@@ -263,6 +273,11 @@ def main():
     if fallthrough is None:
         raise Shape("eval_expr_with_functions has no final `_ =>` arm")
 
+    if len(eq_numeric) != 2 or eq_numeric[0] != eq_numeric[1]:
+        raise Shape("BinOp::Eq and BinOp::NotEq are not each other's negation: %s" % eq_numeric)
+    if eq_numeric[0] == "true":
+        shape["fn:values_eq"] = digest(fn_body(src, "values_eq"))
+        used.append("cmp_int_float")
     if used:
         shape["fn:cmp_int_float"] = digest(fn_body(src, "cmp_int_float"))
 
@@ -334,6 +349,7 @@ def main():
              "Local Open Scope Z_scope.", "Local Open Scope string_scope.", "",
              "Definition arith_arms : list aarm :=", "  [ " + ";\n    ".join(arith) + " ].", "",
              "Definition ord_arms : list oarm :=", "  [ " + ";\n    ".join(ord_arms) + " ].", "",
+             "Definition eq_numeric : bool := %s." % eq_numeric[0], "",
              "Definition neg_arms : list (aty * nhow) := [ " + "; ".join(neg_arms) + " ].", "",
              "Definition abs_int_mode : imode := %s." % abs_mode, "",
              "Definition timestamp_literal_handled : bool := %s." % ("true" if ts_handled else "false"), "",
